@@ -711,4 +711,436 @@ theorem node_lemma (V : Nat) (sos : Int) (N : Nat) (L1 : List Item) (tl : List (
         obtain ⟨i, hi⟩ := List.mem_iff_getElem?.mp hl
         exact hnone (i + 1) l e0 (by simpa using hi) he0 hk'
 
+/-! ## the table -/
+
+theorem mem_tableOf (dicts : List (List Item)) (k : List Int) (v : Entry) :
+    (k, v) ∈ tableOf dicts ↔ ∃ (j : Nat) (d : List Item) (e : Item), dicts[j]? = some d ∧ e ∈ d ∧
+      (k, v) = entryOf (j + 1 == dicts.length) e := by
+  unfold tableOf
+  rw [List.mem_flatMap]
+  constructor
+  · rintro ⟨⟨d, j⟩, hmem, hin⟩
+    have hd := List.mem_zipIdx_iff_getElem?.mp hmem
+    simp only at hd hin
+    obtain ⟨e, he, hee⟩ := List.mem_map.mp hin
+    exact ⟨j, d, e, hd, he, hee.symm⟩
+  · rintro ⟨j, d, e, hd, he, hee⟩
+    refine ⟨(d, j), List.mem_zipIdx_iff_getElem?.mpr hd, ?_⟩
+    simp only
+    exact List.mem_map.mpr ⟨e, he, hee.symm⟩
+
+theorem ofList_unique (items : List (List Int × Entry)) (k : List Int) (v : Entry)
+    (hmem : (k, v) ∈ items) (huniq : ∀ v', (k, v') ∈ items → v' = v) : ofList items k = some v := by
+  unfold ofList
+  cases hf : items.find? (fun e => e.1 == k) with
+  | none =>
+    exfalso
+    have := List.find?_eq_none.mp hf (k, v) hmem
+    simp at this
+  | some p =>
+    have h1 := List.find?_some hf
+    have h2 := List.mem_of_find?_eq_some hf
+    simp only [beq_iff_eq] at h1
+    obtain ⟨pk, pv⟩ := p
+    simp only at h1
+    subst h1
+    simp only [Option.map_some, Option.some.injEq]
+    exact huniq pv h2
+
+theorem valsOK_spec (dicts : List (List Item)) (h : valsOK dicts = true) (j : Nat) (d : List Item)
+    (hd : dicts[j]? = some d) (e : Item) (he : e ∈ d) :
+    e.logp ≠ LogP.nan ∧ (j + 1 < dicts.length → ∃ q, e.logb = LogP.fin q) := by
+  unfold valsOK at h
+  rw [List.all_eq_true] at h
+  have := h (d, j) (List.mem_zipIdx_iff_getElem?.mpr hd)
+  simp only [List.all_eq_true] at this
+  have := this e he
+  simp only [Bool.and_eq_true, bne_iff_ne, ne_eq, Bool.or_eq_true, beq_iff_eq] at this
+  refine ⟨this.1, fun hlt => ?_⟩
+  rcases this.2 with h1 | h1
+  · omega
+  · cases hb : e.logb with
+    | fin q => exact ⟨q, rfl⟩
+    | negInf => rw [hb] at h1; cases h1
+    | nan => rw [hb] at h1; cases h1
+
+/-- **The table lemma.** The closed, renamed levels against the raw table: an item of a level
+carries the table's values (an implicit one `(-inf, 0)`, for a key the table does not list),
+and a key that no level holds is not listed. -/
+theorem table_lemma (V : Nat) (sos : Int) (dicts C : List (List Item)) (H : ClosedLv V sos dicts C)
+    (hnd : ∀ d ∈ dicts, keysNodup d) (hv : valsOK dicts = true) :
+    ∀ k' : List Int,
+      (∀ (j : Nat) (l : List Item) (e : Item),
+        (C.map (fun d => d.map (remapItem V sos)))[j]? = some l → e ∈ l → e.key = k' →
+        e.logp = LogP.ofOption (finiteP (ofList (remapTable V sos (tableOf dicts))) k') ∧
+        (k'.length < dicts.length →
+          e.logb = LogP.fin (beta (ofList (remapTable V sos (tableOf dicts))) k'))) ∧
+      ((∀ (j : Nat) (l : List Item) (e : Item),
+        (C.map (fun d => d.map (remapItem V sos)))[j]? = some l → e ∈ l → e.key ≠ k') →
+        ofList (remapTable V sos (tableOf dicts)) k' = none) := by
+  -- raw items are items of the closed level
+  have hraw : ∀ (j : Nat) (d : List Item) (e : Item), dicts[j]? = some d → e ∈ d →
+      ∃ c, C[j]? = some c ∧ e ∈ c ∧ ∃ ex, c = d ++ ex ∧ ∀ x ∈ ex, IsDummy x := by
+    intro j d e hd he
+    have hj : j < C.length := by
+      rw [H.len]; exact (List.getElem?_eq_some_iff.mp hd).1
+    obtain ⟨ex, hc, hex⟩ := H.ext j C[j] d (List.getElem?_eq_getElem hj) hd
+    exact ⟨C[j], List.getElem?_eq_getElem hj, by rw [hc]; exact List.mem_append_left _ he, ex, hc, hex⟩
+  have hvalid : ∀ p ∈ tableOf dicts, ∀ t ∈ p.1, validTok V sos t := by
+    rintro ⟨k, v⟩ hp t ht
+    obtain ⟨j, d, e, hd, he, hee⟩ := (mem_tableOf dicts k v).mp hp
+    obtain ⟨c, hc, hec, _⟩ := hraw j d e hd he
+    have hk : k = e.key := by
+      have := congrArg Prod.fst hee; simpa [entryOf] using this
+    rw [hk] at ht
+    exact ((H.keys j c hc e hec).2) t ht
+  -- T1: a raw item is what the table lists for its key
+  have hT1 : ∀ (j : Nat) (d : List Item) (e : Item), dicts[j]? = some d → e ∈ d →
+      ofList (remapTable V sos (tableOf dicts)) (e.key.map (remapTok V sos)) =
+        some (entryOf (j + 1 == dicts.length) e).2 := by
+    intro j d e hd he
+    obtain ⟨c, hc, hec, _⟩ := hraw j d e hd he
+    rw [ofList_remap V sos _ hvalid e.key (H.keys j c hc e hec).2]
+    apply ofList_unique
+    · exact (mem_tableOf dicts _ _).mpr ⟨j, d, e, hd, he, rfl⟩
+    · intro v' hv'
+      obtain ⟨j', d', e', hd', he', hee'⟩ := (mem_tableOf dicts _ _).mp hv'
+      obtain ⟨c', hc', hec', _⟩ := hraw j' d' e' hd' he'
+      have hk : e.key = e'.key := by
+        have := congrArg Prod.fst hee'; simpa [entryOf] using this
+      have hjj : j' = j := by
+        have a := (H.keys j c hc e hec).1
+        have b := (H.keys j' c' hc' e' hec').1
+        rw [hk] at a; omega
+      subst hjj
+      rw [hd] at hd'
+      simp only [Option.some.injEq] at hd'
+      subst hd'
+      have : e' = e := eq_of_key_eq d (hnd d (List.mem_of_getElem? hd)) e' he' e he hk.symm
+      subst this
+      have := congrArg Prod.snd hee'
+      simpa using this
+  -- T2: whatever the table lists comes from a raw item
+  have hT2 : ∀ (k' : List Int) (v : Entry), ofList (remapTable V sos (tableOf dicts)) k' = some v →
+      ∃ (j : Nat) (d : List Item) (e : Item), dicts[j]? = some d ∧ e ∈ d ∧
+        e.key.map (remapTok V sos) = k' := by
+    intro k' v hv'
+    have hm := mem_of_ofList_some hv'
+    unfold remapTable at hm
+    obtain ⟨⟨k0, v0⟩, hp, hpe⟩ := List.mem_map.mp hm
+    simp only [Prod.mk.injEq] at hpe
+    obtain ⟨j, d, e, hd, he, hee⟩ := (mem_tableOf dicts k0 v0).mp hp
+    have hk : k0 = e.key := by
+      have := congrArg Prod.fst hee; simpa [entryOf] using this
+    exact ⟨j, d, e, hd, he, by rw [← hk]; exact hpe.1⟩
+  have hget : ∀ (j : Nat) (l : List Item), (C.map (fun d => d.map (remapItem V sos)))[j]? = some l →
+      ∃ c, C[j]? = some c ∧ l = c.map (remapItem V sos) := by
+    intro j l hl
+    rw [List.getElem?_map] at hl
+    obtain ⟨c, hc, rfl⟩ := Option.map_eq_some_iff.mp hl
+    exact ⟨c, hc, rfl⟩
+  intro k'
+  constructor
+  · intro j l e hl he hk
+    obtain ⟨c, hc, rfl⟩ := hget j l hl
+    obtain ⟨e0, he0, rfl⟩ := List.mem_map.mp he
+    have hj : j < dicts.length := by
+      rw [← H.len]; exact (List.getElem?_eq_some_iff.mp hc).1
+    obtain ⟨ex, hcx, hex⟩ := H.ext j c dicts[j] hc (List.getElem?_eq_getElem hj)
+    have hkey0 : e0.key.map (remapTok V sos) = k' := hk
+    have hlen0 : k'.length = j + 1 := by
+      rw [← hkey0, List.length_map]; exact (H.keys j c hc e0 he0).1
+    rw [hcx, List.mem_append] at he0
+    rcases he0 with he0 | he0
+    · -- a listed n-gram
+      have ht := hT1 j dicts[j] e0 (List.getElem?_eq_getElem hj) he0
+      rw [hkey0] at ht
+      obtain ⟨w1, w2⟩ := valsOK_spec dicts hv j dicts[j] (List.getElem?_eq_getElem hj) e0 he0
+      constructor
+      · show e0.logp = _
+        unfold finiteP
+        rw [ht]
+        simp only [entryOf]
+        cases hp : e0.logp with
+        | fin q => rfl
+        | negInf => rfl
+        | nan => exact absurd hp w1
+      · intro hlt
+        show e0.logb = _
+        unfold beta
+        rw [ht]
+        obtain ⟨q, hq⟩ := w2 (by omega)
+        have hnt : (j + 1 == dicts.length) = false := by
+          rw [beq_eq_false_iff_ne]; omega
+        simp only [entryOf, hnt, hq]
+        rfl
+    · -- an implicit node
+      obtain ⟨d1, d2⟩ := hex e0 he0
+      have hnone : ofList (remapTable V sos (tableOf dicts)) k' = none := by
+        cases hh : ofList (remapTable V sos (tableOf dicts)) k' with
+        | none => rfl
+        | some v =>
+          exfalso
+          obtain ⟨j', d', e', hd', he', hk''⟩ := hT2 k' v hh
+          obtain ⟨c', hc', hec', _⟩ := hraw j' d' e' hd' he'
+          have hcm : e0 ∈ c := by rw [hcx]; exact List.mem_append_right _ he0
+          have hkk : e'.key = e0.key :=
+            map_remap_inj V sos _ _ (H.keys j' c' hc' e' hec').2 (H.keys j c hc e0 hcm).2
+              (hk''.trans hkey0.symm)
+          have hjj : j' = j := by
+            have a := (H.keys j c hc e0 hcm).1
+            have b := (H.keys j' c' hc' e' hec').1
+            rw [hkk] at b; omega
+          subst hjj
+          rw [List.getElem?_eq_getElem hj] at hd'
+          simp only [Option.some.injEq] at hd'
+          subst hd'
+          have hnd' := H.nodup c (List.mem_of_getElem? hc)
+          unfold keysNodup at hnd'
+          rw [hcx, List.map_append, List.nodup_append] at hnd'
+          exact hnd'.2.2 _ (List.mem_map.mpr ⟨e', he', rfl⟩) _ (List.mem_map.mpr ⟨e0, he0, rfl⟩) hkk
+      constructor
+      · show e0.logp = _
+        unfold finiteP
+        rw [hnone, d1]; rfl
+      · intro _
+        show e0.logb = _
+        unfold beta
+        rw [hnone, d2]
+  · intro hnone
+    cases hh : ofList (remapTable V sos (tableOf dicts)) k' with
+    | none => rfl
+    | some v =>
+      exfalso
+      obtain ⟨j, d, e, hd, he, hk⟩ := hT2 k' v hh
+      obtain ⟨c, hc, hec, _⟩ := hraw j d e hd he
+      exact hnone j (c.map (remapItem V sos)) (remapItem V sos e)
+        (by rw [List.getElem?_map, hc]; rfl) (List.mem_map.mpr ⟨e, hec, rfl⟩) hk
+
+/-! ## `C06_flat` -/
+
+/-- **Every key, two cases.** For the buffers `buildTrie` lays out and a key `k` (oldest token
+first, renamed, over the token domain, of length `1 … N`): either the lookup reaches – along the
+reversed key – a node that carries the table's values for `k` (`-inf` / `0` for the implicit
+suffix nodes), or it reaches nothing and the table does not list `k`. -/
+theorem buildTrie_nodes (V : Nat) (sos : Int) (dicts : List (List Item)) (b : Buffers)
+    (hb : buildTrie V sos dicts = some b) (hnd : ∀ d ∈ dicts, keysNodup d)
+    (hv : valsOK dicts = true) :
+    b.N = dicts.length ∧
+    ∀ k : List Int, k ≠ [] → k.length ≤ b.N →
+      (∀ t ∈ k, 0 ≤ t ∧ t < ((V + shiftOf V sos : Nat) : Int)) →
+      (∃ q, reach (flatNav b (uOf V sos b.N)) k.reverse = some q ∧
+          b.logps.getD q LogP.nan = LogP.ofOption (finiteP (ofList (remapTable V sos (tableOf dicts))) k) ∧
+          (k.length < b.N → b.logbs.getD q LogP.nan =
+            LogP.fin (beta (ofList (remapTable V sos (tableOf dicts))) k))) ∨
+      (reach (flatNav b (uOf V sos b.N)) k.reverse = none ∧
+        ofList (remapTable V sos (tableOf dicts)) k = none) := by
+  rw [buildTrie_eq] at hb
+  split at hb
+  · cases hb
+  rename_i hN0
+  split at hb
+  · cases hb
+  rename_i hTop
+  simp only [Option.map_eq_some_iff] at hb
+  obtain ⟨closedRev, hclose, rfl⟩ := hb
+  have hne : dicts ≠ [] := by intro e; rw [e] at hN0; simp at hN0
+  have htop : dicts.getLastD [] ≠ [] := by
+    intro e; rw [e] at hTop; simp at hTop
+  have HC := closedLv_of_closeDown V sos dicts closedRev hne htop hclose hnd
+  have HR := remLv_of_closedLv V sos dicts _ HC
+  have TL := table_lemma V sos dicts _ HC hnd hv
+  obtain ⟨a1, a2, a3, a4, a5, a6⟩ := assemble_fields V sos dicts.length closedRev
+  -- the levels
+  obtain ⟨L1, tl, hlev⟩ : ∃ L1 tl, closedRev.reverse.map (fun d => d.map (remapItem V sos)) = L1 :: tl := by
+    cases h : closedRev.reverse.map (fun d => d.map (remapItem V sos)) with
+    | nil =>
+      have := congrArg List.length h
+      rw [List.length_map, HC.len] at this
+      simp at this; exact absurd this hne
+    | cons a as => exact ⟨a, as, rfl⟩
+  have hlen : (L1 :: tl).length = dicts.length := by
+    rw [← hlev, List.length_map, HC.len]
+  rw [hlev] at HR TL a1 a2 a3 a4 a5
+  simp only [List.tail_cons] at a1 a2 a3 a4 a5
+  have NL := node_lemma V sos dicts.length L1 tl hlen HR (assemble V sos dicts.length closedRev)
+    a1 a2 a3 a4 (by rw [a5, a1])
+  have hU : uOf V sos (assemble V sos dicts.length closedRev).N = V + shiftOf V sos + 1 % dicts.length := by
+    rw [a6]; rfl
+  rw [hU, a6]
+  -- the two cases for a key
+  have key : ∀ k : List Int, k ≠ [] → k.length ≤ dicts.length →
+      (∀ t ∈ k, 0 ≤ t ∧ t < ((V + shiftOf V sos : Nat) : Int)) →
+      (∃ (q : Nat) (e : Item), reach (flatNav (assemble V sos dicts.length closedRev)
+            (V + shiftOf V sos + 1 % dicts.length)) k.reverse = some q ∧
+          (assemble V sos dicts.length closedRev).logps.getD q LogP.nan =
+            LogP.ofOption (finiteP (ofList (remapTable V sos (tableOf dicts))) k) ∧
+          (k.length < dicts.length → (assemble V sos dicts.length closedRev).logbs.getD q LogP.nan =
+            LogP.fin (beta (ofList (remapTable V sos (tableOf dicts))) k)) ∧ e.key = k) ∨
+      (reach (flatNav (assemble V sos dicts.length closedRev)
+          (V + shiftOf V sos + 1 % dicts.length)) k.reverse = none ∧
+        ofList (remapTable V sos (tableOf dicts)) k = none) := by
+    intro k hk hkl hD
+    have hr : k.reverse ≠ [] := by simpa using hk
+    have hrl : k.reverse.length ≤ dicts.length := by simpa using hkl
+    have hrD : ∀ t ∈ k.reverse, 0 ≤ t ∧ t < ((V + shiftOf V sos : Nat) : Int) :=
+      fun t ht => hD t (by simpa using ht)
+    obtain ⟨n1, n2⟩ := NL k.reverse hr hrl hrD
+    obtain ⟨t1, t2⟩ := TL k
+    by_cases hex : ∃ (j : Nat) (l : List Item) (e : Item), (L1 :: tl)[j]? = some l ∧ e ∈ l ∧ e.key = k
+    · obtain ⟨j, l, e, hl, he, hek⟩ := hex
+      obtain ⟨q, q1, q2, q3⟩ := n1 j l e hl he (by rw [hek])
+      obtain ⟨v1, v2⟩ := t1 j l e hl he hek
+      left
+      refine ⟨q, e, q1, by rw [q2, v1], ?_, hek⟩
+      intro hlt
+      rw [q3 (by simpa using hlt), v2 hlt]
+    · right
+      refine ⟨n2 ?_, t2 ?_⟩
+      · intro j l e hl he hek
+        apply hex
+        exact ⟨j, l, e, hl, he, by simpa using congrArg List.reverse hek⟩
+      · intro j l e hl he hek
+        exact hex ⟨j, l, e, hl, he, hek⟩
+  refine ⟨rfl, ?_⟩
+  intro k hk hkl hD
+  rcases key k hk hkl hD with ⟨q, e, q1, q2, q3, _⟩ | h
+  · exact Or.inl ⟨q, q1, q2, q3⟩
+  · exact Or.inr h
+
+/-- **The flat-buffer layer.** The buffers that `buildTrie` lays out for an accepted table
+(keys pairwise distinct within each order, no NaN / non-finite back-off weights) navigate as a
+reverse trie of the (renamed) raw table, up to what a model of that order looks at. -/
+theorem buildTrie_represents (V : Nat) (sos : Int) (dicts : List (List Item)) (b : Buffers)
+    (hb : buildTrie V sos dicts = some b) (hnd : ∀ d ∈ dicts, keysNodup d)
+    (hv : valsOK dicts = true) :
+    RepresentsN (flatNav b (uOf V sos b.N)) (ofList (remapTable V sos (tableOf dicts)))
+      (fun t => 0 ≤ t ∧ t < ((V + shiftOf V sos : Nat) : Int)) b.N := by
+  obtain ⟨_, key⟩ := buildTrie_nodes V sos dicts b hb hnd hv
+  refine ⟨?_, ?_, ?_, ?_⟩
+  · intro k d hD hlen' hr
+    by_cases hk : k = []
+    · subst hk; simp [reach] at hr
+    rcases key k hk hlen' hD with ⟨q, q1, q2, _⟩ | ⟨n, _⟩
+    · rw [q1] at hr
+      simp only [Option.some.injEq] at hr
+      subst hr
+      exact q2
+    · rw [n] at hr; cases hr
+  · intro k hD hlen' hk hr
+    rcases key k hk hlen' hD with ⟨q, q1, _, _⟩ | ⟨_, t⟩
+    · rw [q1] at hr; cases hr
+    · unfold finiteP; rw [t]
+  · intro k d hD hlen' hr
+    by_cases hk : k = []
+    · subst hk; simp [reach] at hr
+    rcases key k hk (by omega) hD with ⟨q, q1, _, q3⟩ | ⟨n, _⟩
+    · rw [q1] at hr
+      simp only [Option.some.injEq] at hr
+      subst hr
+      exact q3 (by omega)
+    · rw [n] at hr; cases hr
+  · intro k hD hlen' hk hr
+    rcases key k hk (by omega) hD with ⟨q, q1, _, _⟩ | ⟨_, t⟩
+    · rw [q1] at hr; cases hr
+    · unfold beta; rw [t]
+
+/-- `_build_trie` only accepts tables whose keys consist of vocabulary ids and the start symbol. -/
+theorem buildTrie_keys_valid (V : Nat) (sos : Int) (dicts : List (List Item)) (b : Buffers)
+    (hb : buildTrie V sos dicts = some b) (hnd : ∀ d ∈ dicts, keysNodup d) :
+    ∀ p ∈ tableOf dicts, ∀ t ∈ p.1, validTok V sos t := by
+  rw [buildTrie_eq] at hb
+  split at hb
+  · cases hb
+  rename_i hN0
+  split at hb
+  · cases hb
+  rename_i hTop
+  simp only [Option.map_eq_some_iff] at hb
+  obtain ⟨closedRev, hclose, _⟩ := hb
+  have hne : dicts ≠ [] := by intro e; rw [e] at hN0; simp at hN0
+  have htop : dicts.getLastD [] ≠ [] := by
+    intro e; rw [e] at hTop; simp at hTop
+  have H := closedLv_of_closeDown V sos dicts closedRev hne htop hclose hnd
+  rintro ⟨k, v⟩ hp t ht
+  obtain ⟨j, d, e, hd, he, hee⟩ := (mem_tableOf dicts k v).mp hp
+  have hj : j < closedRev.reverse.length := by
+    rw [H.len]; exact (List.getElem?_eq_some_iff.mp hd).1
+  obtain ⟨ex, hc, _⟩ := H.ext j closedRev.reverse[j] d (List.getElem?_eq_getElem hj) hd
+  have hk : k = e.key := by
+    have := congrArg Prod.fst hee; simpa [entryOf] using this
+  rw [hk] at ht
+  exact (H.keys j _ (List.getElem?_eq_getElem hj) e (by rw [hc]; exact List.mem_append_left _ he)).2 t ht
+
+/-- **`C06_flat` in its executable form**: the buffers that `buildTrie` lays out always pass
+the layout check `checkBuilt` (which the driver evaluates on every case). -/
+theorem buildTrie_checkBuilt (V : Nat) (sos : Int) (dicts : List (List Item)) (b : Buffers)
+    (hb : buildTrie V sos dicts = some b) (hnd : ∀ d ∈ dicts, keysNodup d)
+    (hv : valsOK dicts = true) : checkBuilt V sos dicts b = true := by
+  have H := buildTrie_represents V sos dicts b hb hnd hv
+  obtain ⟨_, key⟩ := buildTrie_nodes V sos dicts b hb hnd hv
+  unfold checkBuilt checkFlat
+  rw [List.all_eq_true]
+  intro n hn
+  have hn : n < b.N := List.mem_range.mp hn
+  unfold checkLevel
+  simp only [Bool.and_eq_true, List.all_eq_true]
+  constructor
+  · rintro ⟨r, d⟩ hp
+    obtain ⟨t0, rest, hr, hl, hdom, hw⟩ := (mem_levelOf _ _ _ _ _).mp hp
+    have hreach : reach (flatNav b (uOf V sos b.N)) r = some d := by
+      rw [hr]; exact (reach_cons _ t0 rest d).mpr hw
+    have hD : ∀ t ∈ r.reverse, 0 ≤ t ∧ t < ((V + shiftOf V sos : Nat) : Int) := by
+      intro t ht
+      exact (mem_domOf _ t).mp (hdom t (by simpa using ht))
+    have hlen : r.reverse.length = n + 1 := by rw [List.length_reverse, hr]; simp [hl]
+    simp only [Bool.and_eq_true, decide_eq_true_eq, Bool.or_eq_true, beq_iff_eq]
+    refine ⟨H.logp_some r.reverse d hD (by omega) (by rw [List.reverse_reverse]; exact hreach), ?_⟩
+    by_cases hN : n + 1 = b.N
+    · exact Or.inl hN
+    · exact Or.inr (H.logb_some r.reverse d hD (by omega) (by rw [List.reverse_reverse]; exact hreach))
+  · intro e he
+    simp only [Bool.or_eq_true, bne_iff_ne, ne_eq, Bool.not_eq_true', List.any_eq_true, beq_iff_eq]
+    by_cases hlen : e.1.length = n + 1
+    · by_cases hdom : overDom (domOf (V + shiftOf V sos)) e.1 = true
+      · right
+        have hD : ∀ t ∈ e.1, 0 ≤ t ∧ t < ((V + shiftOf V sos : Nat) : Int) :=
+          fun t ht => (mem_domOf _ t).mp ((overDom_iff _ _).mp hdom t ht)
+        have hne : e.1 ≠ [] := by intro h; rw [h] at hlen; simp at hlen
+        rcases key e.1 hne (by omega) hD with ⟨q, q1, _, _⟩ | ⟨_, hnone⟩
+        · refine ⟨(e.1.reverse, q), ?_, rfl⟩
+          cases hrev : e.1.reverse with
+          | nil => simp at hrev; exact absurd hrev hne
+          | cons t0 rest =>
+            rw [hrev] at q1
+            refine (mem_levelOf _ _ _ _ _).mpr ⟨t0, rest, rfl, ?_, ?_, (reach_cons _ t0 rest q).mp q1⟩
+            · have := congrArg List.length hrev
+              simp at this; omega
+            · intro t ht
+              rw [← hrev] at ht
+              exact (overDom_iff _ _).mp hdom t (by simpa using ht)
+        · exfalso
+          unfold ofList at hnone
+          simp only [Option.map_eq_none_iff] at hnone
+          have := List.find?_eq_none.mp hnone e he
+          simp at this
+      · left; right
+        simpa using hdom
+    · left; left; exact hlen
+
+/-- The decidable form of the hypotheses of `C06_flat` / `C06_lookup` (what the driver
+evaluates on every case). -/
+theorem tableOK_spec (dicts : List (List Item)) (h : tableOK dicts = true) :
+    (∀ d ∈ dicts, keysNodup d) ∧ valsOK dicts = true := by
+  unfold tableOK at h
+  rw [Bool.and_eq_true] at h
+  refine ⟨?_, h.2⟩
+  intro d hd
+  have := h.1
+  unfold keysOK at this
+  rw [List.all_eq_true] at this
+  have := this d hd
+  unfold keysNodup
+  simpa using this
+
 end PdtVerif.NgramTrie
